@@ -208,6 +208,8 @@ def failing_flush(ctx):
 
 def run(ctx):
     core.use_repo()
+    import translate_staged
+    translate_staged.check(ctx)       # staged_write_path / staged_write compiled from _file_store.py and linked to Store/Staged.v by a theorem
     unusual_faults(ctx)
     failing_flush(ctx)
     thorough = not ctx.quick
